@@ -170,20 +170,31 @@ where go (s : List Char) (fuel : Nat) : Nat :=
     | [] => 0
     | c :: r => if pat.isPrefixOf (c :: r) then 1 + go ((c :: r).drop pat.length) fuel else go r fuel
 
+def lookupMods (env : Env) (mono : Bool) (map : List (List Char × List Mod)) (key : List Char) : Except Err Rat :=
+  match map.lookup key with
+  | some l => sumMods env mono l
+  | none => pure 0
+
+/-- one non-terminal rule: its mods × the number of matching residues -/
+def ruleMass (env : Env) (mono : Bool) (seq : List Char) (p : List Char × List Mod) : Except Err Rat :=
+  if p.1 = nTerm || p.1 = cTerm then pure 0
+  else do
+    let v ← sumMods env mono p.2
+    pure (v * ((countSub p.1 seq : Nat) : Rat))
+
+def staticMapMass (env : Env) (mono : Bool) (seq : List Char) (map : List (List Char × List Mod)) : Except Err Rat := do
+  let nt ← lookupMods env mono map nTerm
+  let ct ← lookupMods env mono map cTerm
+  let rest ← sumM (ruleMass env mono seq) map
+  pure (nt + ct + rest)
+
 /-- the static-rule block of the fast path (N-Term, C-Term, then every other target × its count) -/
 def staticMass (env : Env) (mono : Bool) (seq : List Char) (static : Option (List Mod)) : Except Err Rat :=
   match static with
   | none => pure 0
   | some st => do
     let map ← env.parseStatic st
-    let nt ← match map.lookup nTerm with | some l => sumMods env mono l | none => pure 0
-    let ct ← match map.lookup cTerm with | some l => sumMods env mono l | none => pure 0
-    let rest ← sumM (fun (p : List Char × List Mod) =>
-      if p.1 = nTerm || p.1 = cTerm then pure 0
-      else do
-        let v ← sumMods env mono p.2
-        pure (v * ((countSub p.1 seq : Nat) : Rat))) map
-    pure (nt + ct + rest)
+    staticMapMass env mono seq map
 
 /-- `sum(AA_MASSES[aa] for aa in sequence)`; KeyError → UnknownAminoAcidError -/
 def residueMass (mono : Bool) (seq : List Char) : Except Err Rat :=
@@ -192,17 +203,25 @@ def residueMass (mono : Bool) (seq : List Char) : Except Err Rat :=
     | none => .error .unknownAA
     | some m => pure m) seq
 
+/-- labile modifications count for the precursor only -/
+def labileMass (env : Env) (mono : Bool) (a : Annotation) (ion : Key) : Except Err Rat :=
+  if ion = ionP then sumOptMods env mono a.labile else pure 0
+
+def intervalsMass (env : Env) (mono : Bool) : Option (List Interval) → Except Err Rat
+  | none => pure 0
+  | some l => sumM (fun (iv : Interval) => sumOptMods env mono iv.mods) l
+
+def internalMass (env : Env) (mono : Bool) : Option (List (Int × List Mod)) → Except Err Rat
+  | none => pure 0
+  | some l => sumM (fun (p : Int × List Mod) => sumMods env mono p.2) l
+
 /-- the per-position blocks of the fast path: labile (precursor only), unknown, N-term, intervals, residues, C-term -/
 def placedModsMass (env : Env) (mono : Bool) (a : Annotation) (ion : Key) : Except Err Rat := do
-  let lab ← if ion = ionP then sumOptMods env mono a.labile else pure 0
+  let lab ← labileMass env mono a ion
   let unk ← sumOptMods env mono a.unknown
   let nt ← sumOptMods env mono a.nterm
-  let ivs ← match a.intervals with
-    | none => pure 0
-    | some l => sumM (fun (iv : Interval) => sumOptMods env mono iv.mods) l
-  let int ← match a.internal with
-    | none => pure 0
-    | some l => sumM (fun (p : Int × List Mod) => sumMods env mono p.2) l
+  let ivs ← intervalsMass env mono a.intervals
+  let int ← internalMass env mono a.internal
   let ct ← sumOptMods env mono a.cterm
   pure (lab + unk + nt + ivs + int + ct)
 
